@@ -186,6 +186,12 @@ def run(repo: Repo, chk: Check) -> None:
     bad = [n for n, t in prim_tags.items() if alias.get(n, n) in ref['tags'] and isinstance(t, bytes) and prim_int.get(t[0]) != n]
     chk.ob('R-PAIR', f'{FORGE}.prim_int', not bad, 'inverse-of-prim_tags', mi.relpath, {'rows': len(prim_int)},
            what=f'prim_int does not invert prim_tags for {bad[:5]}')
+    # ... and nothing else: a code that is not the code of some primitive of the table must not decode to a name (the reader accepts it then)
+    codes = {t[0] for t in prim_tags.values() if isinstance(t, bytes) and len(t) == 1}
+    stray = sorted(k for k in prim_int if k not in codes)
+    chk.ob('R-PAIR', f'{FORGE}.prim_int', not stray, 'the decoding table has no code that the primitive table does not assign', mi.relpath, {'stray_codes': [hex(k) if isinstance(k, int) else repr(k) for k in stray[:8]]},
+           what=f'prim_int maps the codes {[hex(k) if isinstance(k, int) else repr(k) for k in stray[:5]]} to names although no primitive has them: unforge_micheline accepts byte strings '
+                'with undefined primitive tags instead of rejecting them')
 
     # ---- 2 templates -------------------------------------------------------------------------------------------
     chk.set_clause('C05.2')
